@@ -162,7 +162,7 @@ func specialSpanLine(c *specialCtx) {
 	}
 	prof := &profile{name: "C02", weights: withWeights(map[string]int{"textwide": 30, "text": 10, "goto": 18, "erase": 16, "sgr": 10, "resize": 3, "badutf8": 2}),
 		minLen: 4, maxLen: 40, grid: 0, gmode: 0, chunks: []int{0}}
-	ops := []string{"rr", "rr", "rr", "write", "write", "dch", "erase", "trunc", "resize", "find", "text", "styled", "styled"}
+	ops := []string{"rr", "rr", "rr", "write", "write", "dch", "erase", "trunc", "resize", "find", "text", "ansi", "styled", "styled"}
 	c.parallel(c.n, func(i int, d *driver) {
 		r := newPrng(uint64(c.seed)*1000003 + uint64(i))
 		type rowIn struct {
@@ -344,6 +344,8 @@ func specialSpanLine(c *specialCtx) {
 					cmp("offset", fmt.Sprint(res.Off), ans.off)
 				case "text":
 					cmp("Line", orDash(hex.EncodeToString([]byte(res.Text))), ans.text)
+				case "ansi":
+					cmp("ANSILine", orDash(hex.EncodeToString([]byte(res.Text))), ans.text)
 				default:
 					cmp("runs", runsStr(res.Row.Runs), ans.runs)
 					cmp("cached", fmt.Sprint(res.Row.Cached), ans.cached)
